@@ -26,6 +26,8 @@ ASSUMPTIONS = [
     "replace_group_leader with a member); invalid calls are never made",
     "content is compared as sets per leader, leaders by ==, so 1 and 1.0 (numpy-sorted leaders) are the same value",
     "get_group of a value that is in no group returns the value itself (documented fallback)",
+    "a raw float NaN is not a value of the universe: the library represents missing values by the string sentinel and GroupedList's "
+    "dict-based design cannot hold a float-NaN leader (the constructor from a dict, sort and sort_by already lose it on the unchanged code)",
 ]
 ANCHORS = [("AutoCarver/discretizers/utils/grouped_list.py", "GroupedList." + m) for m in
            ("__init__", "get", "group", "group_list", "append", "update", "sort", "sort_by", "remove", "pop", "get_group",
@@ -85,6 +87,8 @@ class Model:
 def same(a, b):
     if isinstance(a, str) != isinstance(b, str):
         return False
+    if isinstance(a, float) and isinstance(b, float) and a != a and b != b:
+        return True  # NaN-insensitive equality, as the class documents (is_equal)
     return a == b
 
 
@@ -137,6 +141,8 @@ def valid_ops(m, universe, rng=None, limit=None):
         for x in mem:
             if not same(x, l):
                 ops.append(("replace_group_leader", l, x))
+    if L:
+        ops.append(("replace_group_leader", L[-1], L[-1]))  # a leader is a member of its own group: valid, and a no-op
     ops.append(("copy",))
     ops.append(("rebuild_from_content",))
     return ops
@@ -169,7 +175,7 @@ def apply_model(m, op):
         del n.g[op[1]]
     elif kind == "sort":
         strs = sorted([g for g in n.g if isinstance(g[0], str)], key=lambda g: g[0])
-        nums = sorted([g for g in n.g if not isinstance(g[0], str)], key=lambda g: g[0])
+        nums = sorted([g for g in n.g if not isinstance(g[0], str)], key=lambda g: (g[0] != g[0], g[0] if g[0] == g[0] else 0))  # NaN last
         n.g = strs + nums
     elif kind == "sort_by":
         n.g = [n.g[n.idx(l)] for l in op[1]]
@@ -222,9 +228,10 @@ def compare(g, m, universe, stats):
     if len(g.content) != len(ml):
         return f"content keys {list(g.content)!r} != model leaders {ml!r}"
     for l, mem in m.g:
-        if l not in g.content:
+        key = next((k for k in g.content if same(k, l)), None)
+        if key is None:
             return f"leader {l!r} missing from content"
-        real = g.content[l]
+        real = g.content[key]
         if len(real) != len(mem) or not all(any(same(x, y) for y in real) for x in mem):
             return f"content[{l!r}]={real!r} != model {mem!r}"
         got = g.get(l)
